@@ -7,6 +7,7 @@ import Lattigo.Model.BRedConst
 import Lattigo.Model.Vec
 import Lattigo.Model.NTT
 import Lattigo.Model.RPoly
+import Lattigo.Model.RingQP
 
 namespace Driver.C01
 open Driver Lattigo Lattigo.Gen
@@ -78,6 +79,16 @@ def accept (n nthRoot : Nat) (qs : List Nat) : Bool :=
 
 def handle (toks : List String) : String :=
   match toks with
+  | ["qpmulrns", qs, ps, nq, np, rowsQ, rowsP, sc] =>
+    match parseVec? qs, parseVec? ps, nq.toNat?, np.toNat?, parseMat? rowsQ, parseMat? rowsP, parseVec? sc with
+    | some qs, some ps, some nq, some np, some rq, some rp, some sc =>
+      let r := RingQP.mulRNSScalarMontgomery qs ps nq np rq rp sc
+      s!"{showMat r.1}|{showMat r.2}"
+    | _, _, _, _, _, _, _ => badOp
+  | ["rpautci", qs, gal, rows] =>
+    match parseVec? qs, gal.toNat?, parseMat? rows with
+    | some qs, some gal, some rows => showMat ((RingQP.autCI { qs := qs, c := rows } gal).c)
+    | _, _, _ => badOp
   | ["accept", _ctor, n, nth, qs] =>
     match n.toNat?, nth.toNat?, parseVec? qs with
     | some n, some nth, some qs => if accept n nth qs then "1" else "0"
